@@ -3243,6 +3243,9 @@ class Client:
                     # We haven't finished with this packet
                     self._out_packet.appendleft(packet)
             else:
+                # Nothing of this packet was accepted (a WebSocket frame is still
+                # being flushed): keep it queued.
+                self._out_packet.appendleft(packet)
                 break
 
         with self._msgtime_mutex:
